@@ -288,11 +288,36 @@ def gen_history(rng, n, max_tables=4, p_fail=0.05, long_rows=0.0, big_insert=Non
 # ------------------------------------------------------------------ events (python form)
 # ("stmt", st) | ("flush",) | ("crash",) | ("tables", [names]) | ("dump",) | ("crashlog", st, then, names)
 
+def go_typed(v):
+    if v is None:
+        return None
+    if isinstance(v, bool):
+        return ["b", v]
+    if isinstance(v, int):
+        return ["i", str(v)]
+    return ["s", [ord(c) for c in v]]
+
+
+def go_direct(st):
+    d = {"k": st["k"], "table": st["table"]}
+    if st["k"] == "insert":
+        d["cols"] = st["cols"]
+        d["rows"] = [[go_typed(v) for v in r] for r in st["rows"]]
+    elif st["k"] == "update":
+        d["sets"] = [[c, go_typed(v)] for c, v in st["sets"]]
+        d["where"] = sql_where(st["where"])[len(" WHERE "):] if st["where"] else ""
+    else:
+        d["where"] = sql_where(st["where"])[len(" WHERE "):] if st["where"] else ""
+    return d
+
+
 def go_events(evs):
     out = []
     for e in evs:
         if e[0] == "stmt":
             out.append({"t": "sql", "q": sql_stmt(e[1])})
+        elif e[0] == "dstmt":
+            out.append({"t": "direct", "d": go_direct(e[1])})
         elif e[0] == "flush":
             out.append({"t": "flush"})
         elif e[0] == "crash":
@@ -309,7 +334,7 @@ def go_events(evs):
 
 
 def cq_event(e):
-    if e[0] == "stmt":
+    if e[0] in ("stmt", "dstmt"):
         return "HEv (EvStmt %s)" % cq_stmt(e[1])
     if e[0] == "flush":
         return "HEv EvFlush"
@@ -364,7 +389,7 @@ def cq_page(p):
 
 def cq_obs(o):
     t = o["t"]
-    if t in ("sql", "flush", "crash"):
+    if t in ("sql", "flush", "crash", "direct"):
         return "HOut (%s)" % cq_res(o["res"])
     if t == "tables":
         return "HTables %s" % cq_list(cq_table_obs(x) for x in o.get("tables") or [])
